@@ -1643,6 +1643,11 @@ func (d *DotGit) PackRefs() (err error) {
 
 	w := bufio.NewWriter(tmp)
 	for _, ref := range refs {
+		// packed-refs holds only "<hash> <name>" lines: symbolic
+		// references cannot be packed and stay loose.
+		if ref.Type() != plumbing.HashReference {
+			continue
+		}
 		_, err = w.WriteString(ref.String() + "\n")
 		if err != nil {
 			return err
@@ -1662,6 +1667,9 @@ func (d *DotGit) PackRefs() (err error) {
 	// Delete all the loose refs, while still holding the packed-refs
 	// lock.
 	for _, ref := range refs[:numLooseRefs] {
+		if ref.Type() != plumbing.HashReference {
+			continue
+		}
 		path := d.fs.Join(".", ref.Name().String())
 		err = d.fs.Remove(path)
 		if err != nil && !os.IsNotExist(err) {
